@@ -630,7 +630,7 @@ impl OutputFormat for IcyDraw {
                                                 }
 
                                                 let (ch, fg, bg, font_page) = if is_short {
-                                                    if o + 3 > bytes.len() {
+                                                    if o + 4 > bytes.len() {
                                                         return Err(anyhow::anyhow!("data length out ouf bounds"));
                                                     }
 
